@@ -115,6 +115,9 @@ def verify(src, prop, letter, features=None, nightly=False):
         needs = ""
         if os.path.exists(rep):
             shutil.copy(rep, os.path.join(d, "AGENT_REPORT.md"))
+        notes = os.path.join(src, "NOTES.txt")
+        if os.path.exists(notes):
+            shutil.copy(notes, os.path.join(d, "AGENT_NOTES.txt"))
         meta = {
             "id": sid,
             "breaks_property": prop,
@@ -173,15 +176,33 @@ def run(sid, only=None):
 
 def table():
     rows = []
+    desc = {}
+    dp = os.path.join(SEEDED, "DESCRIPTIONS.json")
+    if os.path.exists(dp):
+        desc = json.load(open(dp))
     for sid in sorted(os.listdir(SEEDED)):
+        if not os.path.isdir(os.path.join(SEEDED, sid)):
+            continue
+        # fold the description into meta.json
+        mp = os.path.join(SEEDED, sid, "meta.json")
+        if sid in desc and os.path.exists(mp):
+            m = json.load(open(mp))
+            m["what_was_changed"] = desc[sid]["what"]
+            m["needs_to_manifest"] = desc[sid]["needs"]
+            json.dump(m, open(mp, "w"), indent=1)
         r = os.path.join(SEEDED, sid, "result.json")
         if os.path.exists(r):
             j = json.load(open(r))
             rows.append((sid, j["detected_by_target_check"], ",".join(j["detected_by"]), ",".join(j.get("harness_errors", []))))
         else:
             rows.append((sid, None, "(not run)", ""))
+    lines = []
     for r in rows:
-        print(f"{r[0]:8} target={'yes' if r[1] else ('NO' if r[1] is False else '?'):3}  caught by: {r[2]}  {('harness errors: ' + r[3]) if r[3] else ''}")
+        lines.append(f"{r[0]:8} target={'yes' if r[1] else ('NO' if r[1] is False else '?'):3}  caught by: {r[2]}  {('harness errors: ' + r[3]) if r[3] else ''}".rstrip())
+    hit = sum(1 for r in rows if r[1])
+    lines.append(f"# {hit} of {len(rows)} seeded changes are reported by the quick check of their target property")
+    open(os.path.join(SEEDED, "MATRIX.txt"), "w").write("\n".join(lines) + "\n")
+    print("\n".join(lines))
 
 
 if __name__ == "__main__":
